@@ -63,6 +63,11 @@ func (g *gen) Add(name string, typs []types.Type) (string, error) {
 			return g.SetFuncName(name, tuptypes...)
 		}
 	}
+	for i, typ := range typs {
+		if basic, ok := typ.(*types.Basic); ok && basic.Kind() == types.UntypedNil {
+			return "", fmt.Errorf("%s, argument number %d is nil, which does not have a type", name, i)
+		}
+	}
 	return g.SetFuncName(name, typs...)
 }
 
